@@ -1,7 +1,93 @@
-From Coq Require Import List ZArith NArith Bool.
+(* C11 — Simplification preserves the meaning of expressions.
+   Only statements; each is closed by [exact] of a lemma from Proofs/Simplify_proofs.v.
+
+   Model: Walkers/Simplify.v ([simplify G e : option expr]; None = the model's bound on nested re-simplifications was
+   hit, which the theorems exclude and the correspondence never observes).  G = user-type table, static-fluent initial
+   values, interpreted-function table.  Semantics: Core/Eval.v, strict quantifiers ([eval false]).
+
+   Reading of "same value" (DESIGN.md, C11): refinement on defined values — rewrites such as 0*t -> 0, t == t -> true,
+   a or not a -> true make the result defined where the original was not.
+   Side conditions of soundness (all needed, see notes/C11.md):
+     cfg_consts G       the tables contain constants only (initial values are constants),
+     env_ok G tau QT I  I gives static fluents / interpreted functions their table values, respects the declared user
+                        types (objects of unrelated types are distinct), and quantified types (QT) have an object,
+     wfx tau QT S e     variables are annotated with their type tau, no quantifier rebinds a variable in scope, bound
+                        variables of one quantifier are distinct, fluent arguments contain no quantifier
+                        (= FNode.substitute is capture-free where walk_exists uses it). *)
+From Coq Require Import List ZArith NArith QArith Qcanon Bool Lia.
 Import ListNotations.
 Require Import UPV.Core.Expr UPV.Core.Eval UPV.Walkers.Simplify UPV.Proofs.Simplify_proofs.
 
-Theorem C11_tmp : forall c, walk_not (ENot (ENot c)) = ENot c.
-Proof. exact walk_not_involutive_on_not. Qed.
-Print Assumptions C11_tmp.
+Theorem C11_simplify_sound :
+  forall G tau QT S e e' I v,
+    cfg_consts G -> wfx tau QT S e = true -> env_ok G tau QT I ->
+    simplify G e = Some e' -> eval false e I = Some v -> eval false e' I = Some v.
+Proof. exact simplify_sound. Qed.
+Print Assumptions C11_simplify_sound.
+
+Theorem C11_simplify_no_new_free_vars :
+  forall G e e', cfg_consts G -> simplify G e = Some e' -> incl (free_vars e') (free_vars e).
+Proof. exact simplify_no_new_free_vars. Qed.
+Print Assumptions C11_simplify_no_new_free_vars.
+
+Theorem C11_simplify_idempotent :
+  forall G e e', cfg_consts G -> simplify G e = Some e' -> simplify G e' = Some e'.
+Proof. exact simplify_idempotent. Qed.
+Print Assumptions C11_simplify_idempotent.
+
+(* the side condition on expressions is itself preserved: the three theorems apply again to the output *)
+Theorem C11_simplify_preserves_side_conditions :
+  forall G tau QT S e e', cfg_consts G -> wfx tau QT S e = true -> simplify G e = Some e' -> wfx tau QT S e' = true.
+Proof. exact simplify_preserves_wfx. Qed.
+Print Assumptions C11_simplify_preserves_side_conditions.
+
+(* soundness does not depend on the re-simplification bound of the model *)
+Theorem C11_simp_sound_any_fuel :
+  forall G tau QT S n e I v,
+    cfg_consts G -> wfx tau QT S e = true -> env_ok G tau QT I ->
+    eval false e I = Some v -> eval false (simp G n e) I = Some v.
+Proof. exact simp_sound_any_fuel. Qed.
+Print Assumptions C11_simp_sound_any_fuel.
+
+(* ---------------------------------------------------------------- non-vacuity: a world with one user type (0) and two
+   objects, a Boolean fluent 0 true exactly on object 0;  Exists v. (f(v) and v == o0)  |->  f(o0) *)
+Definition G0 : cfg :=
+  {| obj_ty := fun o => if (o <? 2)%N then Some 0%N else None;
+     par_ty := fun _ => None; fl_ty := fun _ => None; if_ty := fun _ => None; anc := fun _ => [];
+     stat := fun _ _ => None; itab := fun _ _ => None |}.
+Definition I0 : interp :=
+  {| fl := fun f args => match f, args with 0%N, [VObj o] => Some (VBool (o =? 0)%N) | _, _ => None end;
+     par := fun _ => None; var := fun _ => None; ifun := fun _ _ => None;
+     objs := fun t => if (t =? 0)%N then [0%N; 1%N] else [] |}.
+Definition e0 : expr := EExists [(7%N, 0%N)] (EAnd [EFluent 0 [EVar 7 0]; EEquals (EVar 7 0) (EObj 0)]).
+
+Lemma G0_consts : cfg_consts G0.
+Proof. split; intros f a c H; discriminate H. Qed.
+
+Lemma I0_ok : env_ok G0 (fun _ => 0%N) (fun t => (t =? 0)%N) I0.
+Proof.
+  constructor; simpl; try (intros; discriminate).
+  - intros o ty H. destruct (o <? 2)%N eqn:E; [|discriminate]. inversion H; subst. apply N.ltb_lt in E. simpl.
+    destruct (N.eq_dec o 0); [left; auto|right; left; lia].
+  - intros a b o H. unfold compat in H. simpl in H. rewrite orb_false_r in H. apply N.eqb_eq in H. subst. auto.
+  - intros a b o Ha Hb. destruct (a =? 0)%N eqn:Ea; [|destruct Ha]. destruct (b =? 0)%N eqn:Eb; [|destruct Hb].
+    apply N.eqb_eq in Ea, Eb. subst. left. reflexivity.
+  - intros ty H. rewrite H. discriminate.
+Qed.
+
+Example C11_simplify_sound_nonvacuous :
+  cfg_consts G0 /\ wfx (fun _ => 0%N) (fun t => (t =? 0)%N) [] e0 = true /\ env_ok G0 (fun _ => 0%N) (fun t => (t =? 0)%N) I0 /\
+  simplify G0 e0 = Some (EFluent 0 [EObj 0]) /\ eval false e0 I0 = Some (VBool true) /\
+  eval false (EFluent 0 [EObj 0]) I0 = Some (VBool true).
+Proof. split; [exact G0_consts|]. split; [reflexivity|]. split; [exact I0_ok|]. repeat split; vm_compute; reflexivity. Qed.
+
+Example C11_simplify_no_new_free_vars_nonvacuous :
+  cfg_consts G0 /\ simplify G0 (EAnd [EFluent 0 [EVar 3 0]; EOr [EFluent 0 [EVar 4 0]; EBool true]]) = Some (EFluent 0 [EVar 3 0]).
+Proof. split; [exact G0_consts|vm_compute; reflexivity]. Qed.
+
+Example C11_simplify_idempotent_nonvacuous :
+  cfg_consts G0 /\
+  simplify G0 (EMinus (EPlus [EParam 1; EInt 1]) (EInt (-3))) = Some (EPlus [EParam 1; EInt 4]) /\
+  simplify G0 (EPlus [EParam 1; EInt 4]) = Some (EPlus [EParam 1; EInt 4]) /\
+  simplify G0 e0 = Some (EFluent 0 [EObj 0]).
+Proof. split; [exact G0_consts|]. repeat split; vm_compute; reflexivity. Qed.
